@@ -254,6 +254,23 @@ func c03Recovery(c *Ctx) {
 			c.undecided(r, fnName(f)+":committedLogSize", "no non-constant store to committedLogSize")
 		}
 		c.ruleErrChecked(r, f, "cLog.SetOffset", callTo(appSetOff), 2)
+		// the validation walk goes back to the latest *synced* snapshot: un-fsynced flushes that a newer snapshot
+		// still references must be validated too, so the walk may end only at a synced entry, at the beginning of
+		// the log or at EOF
+		des := sites(f, callTo("embedded/tbtree.(*cLogEntry).deserialize"))
+		load := callTo("embedded/tbtree.(*TBtree).readNodeAt")
+		if len(des) == 0 || len(sites(f, load)) == 0 {
+			c.undecided(r, fnName(f)+":walk", "validation loop (deserialize ... readNodeAt) not found")
+		} else {
+			stop := anyEdge(
+				whenCond(true, func(a string) bool { return hasFieldSuffix(a, "synced") }),
+				whenCond(false, func(a string) bool { return strings.HasPrefix(a, "(const:0 < ") }),
+				whenCond(true, func(a string) bool { return strings.Contains(a, "errors.Is") && strings.Contains(a, "EOF") }))
+			q := &pathQ{fn: f, from: des, to: load, barrier: stop}
+			w := q.bypass()
+			c.check(w == nil, r, fnName(f)+":walk-ends-at-synced-entry", c.pos(des[0].Pos()), "the snapshot validation walk is left only at a synced entry, at the start of the log or at EOF",
+				"the validation walk can stop at an entry that was never fsynced: older un-fsynced flushes it references are not validated: "+c.witnessStr(w))
+		}
 	}
 }
 
